@@ -109,8 +109,13 @@ def token_family(I, lines, upto):
 def summarize(I, mols):
     out = []
     for m in mols:
-        out.append({"n": len(m.fields["_atoms"].items), "nb": len(m.fields["_bonds"].items) if "_bonds" in m.fields else 0,
-                    "els": [a.fields["element"] for a in m.fields["_atoms"].items], "coords": NP.flat(m.fields["_coords"].data)})
+        al = m.fields["_atoms"].items
+        bonds = []
+        for b in (m.fields["_bonds"].items if "_bonds" in m.fields else []):
+            ends = [next((j for j, x in enumerate(al) if x is b.fields[e]), -1) for e in ("a1", "a2")]
+            bonds.append((ends[0], ends[1], b.fields["btype"]))
+        out.append({"n": len(al), "nb": len(m.fields["_bonds"].items) if "_bonds" in m.fields else 0,
+                    "els": [a.fields["element"] for a in al], "coords": NP.flat(m.fields["_coords"].data), "bonds": bonds})
     return out
 
 
@@ -154,7 +159,9 @@ def unit(fmt, tokens=False):
                 continue
             V.ensure(f"post/molecule-{j}:has-the-declared-atom-and-bond-counts", z3.BoolVal(g["n"] == declared[j][0] and g["nb"] == declared[j][1]))
             if g["n"] == ref[j]["n"]:
-                same = I.and_(*[I.eq(x, y) for x, y in zip(g["els"], ref[j]["els"])], *[M._same(I, x, y) for x, y in zip(g["coords"], ref[j]["coords"])])
+                same = I.and_(*[I.eq(x, y) for x, y in zip(g["els"], ref[j]["els"])], *[M._same(I, x, y) for x, y in zip(g["coords"], ref[j]["coords"])],
+                              len(g["bonds"]) == len(ref[j]["bonds"]),
+                              *[I.and_(x[0] == y[0] and x[1] == y[1], I.eq(x[2], y[2])) for x, y in zip(g["bonds"], ref[j]["bonds"])])
                 V.ensure(f"post/molecule-{j}:same-content-as-in-the-undamaged-file", same)
     return body
 
@@ -167,3 +174,46 @@ P.unit("molli.parsing.xyz:read_xyz", name="xyz: every single-token corruption is
        functions=["molli.parsing.xyz:read_xyz", f"{M.CLS['CartesianGeometry']}.yield_from_xyz"])(unit("xyz", tokens=True))
 P.unit("molli.parsing.mol2:read_mol2", name="mol2: every single-token corruption is rejected or yields complete molecules with the same content",
        functions=["molli.parsing.mol2:read_mol2", f"{M.CLS['Structure']}.yield_from_mol2"])(unit("mol2", tokens=True))
+
+
+@P.unit("molli.parsing.mol2:read_mol2", name="mol2 with attribute records (UNITY_ATOM_ATTR / UNITY_BOND_ATTR): every truncation is rejected or complete, and the reader terminates",
+        functions=["molli.parsing.mol2:read_mol2", "molli.parsing.mol2:LineReader.__next__", "molli.parsing.mol2:LineReader.next_noexcept"])
+def _mol2_attr(V):
+    """hand-written text in the dialect other programs produce (molli's writer emits no attribute records): truncated at every line
+    boundary.  Termination is decided for these inputs only: a spec-less loop that runs 20000 times on a 20-line text is reported."""
+    I, st = V.I, V.st
+    T.use(st)
+    x = [V.sym(f"x{i}", "real") for i in range(6)]
+    ft = lambda v: T.Tok("float", v, ".4f")
+    lines = ["@<TRIPOS>MOLECULE\n", "attrmol\n", "2 1 0 0 0\n", "SMALL\n", "NO_CHARGES\n", "\n",
+             "@<TRIPOS>ATOM\n",
+             T.SStr(["1 C1 ", ft(x[0]), " ", ft(x[1]), " ", ft(x[2]), " C.3 1 UNL 0.0\n"]),
+             T.SStr(["2 O1 ", ft(x[3]), " ", ft(x[4]), " ", ft(x[5]), " O.3 1 UNL 0.0\n"]),
+             "@<TRIPOS>UNITY_ATOM_ATTR\n", "1 1\n", "charge 0\n", "2 2\n", "charge -1\n", "note x\n",
+             "@<TRIPOS>BOND\n", "1 1 2 1\n",
+             "@<TRIPOS>UNITY_BOND_ATTR\n", "1 1\n", "order 1\n"]
+    k = V.choose(list(range(len(lines) + 1)), "truncate-after-line")
+    V.witness(lambda ev: {"op": "attr-truncation", "line": k, "signature": "attr-truncation"})
+    V.cover()
+    text = T.SStr(lines[:k])
+    cls = V.cls(MOLQ)
+    I.target = "molli.parsing.mol2:read_mol2"
+    I.loop_cap = 3000
+    try:
+        r = I.call(I.getattr_(cls, "loads_all_mol2"), [text], {})
+        out = Outcome("return", r)
+    except PyExc as ex:
+        out = Outcome("raise", exc=ex.value)
+    except IterationCap:
+        V.ensure("attr/reader-terminates", z3.BoolVal(False))
+        return
+    V.ensure("attr/reader-terminates", z3.BoolVal(True))
+    if not out.returned:
+        V.ensure("attr/truncated-text-is-rejected-or-complete", z3.BoolVal(True))
+        return
+    got = summarize(I, out.value.items)
+    V.ensure("attr/truncated-text-is-rejected-or-complete", z3.BoolVal(all(g["n"] == 2 and g["nb"] == 1 for g in got) and len(got) <= 1))
+    if k == len(lines) and len(got) == 1:
+        al = out.value.items[0].fields["_atoms"].items
+        V.ensure("attr/whole-text-read-with-its-attributes", z3.BoolVal(len(al) == 2 and "charge" in al[0].fields["attrib"].keys and
+                                                                        set(al[1].fields["attrib"].keys) == {"charge", "note"}))
